@@ -133,9 +133,11 @@ def stepCall (m : M) (f : SVal) (args : List SVal) : Step :=
   | .fn id => callClosure m id args false
   | .host name => hostCall m name args via
   | _ =>
+    -- ldo.c tryfuncTM (5.1): the `__call` handler must itself be a function
     let h := m.metaField f "__call"
-    if h.isNil then fault m "attempt to call"
-    else goto_ m (.call h (f :: args))
+    match h with
+    | .fn _ | .host _ => goto_ m (.call h (f :: args))
+    | _ => fault m "attempt to call"
 
 /-! ### assignment -/
 
@@ -187,7 +189,7 @@ def stepVals (m : M) (fr : Frame) (vs : List SVal) : Step :=
      | some f => val1 m (.num (-f))
      | none =>
        let h := m.metaField v "__unm"
-       if h.isNil then fault m "arith" else push m .ret1 (.call h [v, v]))
+       if h.isNil then fault m "arith" else push m .ret1 (.call h [v]))   -- manual §2.8 unm_event: h(op)
   | .lenK =>
     (match v with
      | .str h => val1 m (numV (strLen h))
